@@ -5,7 +5,7 @@ ROOT = os.path.dirname(os.path.dirname(os.path.abspath(__file__)))
 
 claimed = {
  "C02": ("fault_enumeration", "4 C02",
-   "Seeded histories over the whole safe API of Map and Set (nine element shapes, capacities 0..32) with every cancellation point of every consuming iterator / drain / entry enumerated (j = 0..=len x {exhaust, drop, mem::forget}) and relocation of the container value between steps; a per-object ledger checks after every step that each key/value object is in exactly one place and is destroyed exactly once, and that no callback or return value ever denotes a dead or never-initialised (0xA5-poisoned) slot. Thorough adds a Miri batch of the same plans.",
+   "Seeded histories over the whole safe API of Map and Set (ten element shapes, capacities 0..32) with every cancellation point of every consuming iterator / drain / entry enumerated (j = 0..=len x {exhaust, drop, mem::forget}) and relocation of the container value between steps; a per-object ledger checks after every step that each key/value object is in exactly one place and is destroyed exactly once, and that no callback or return value ever denotes a dead or never-initialised (0xA5-poisoned) slot. Thorough adds a Miri batch of the same plans.",
    "deterministic simulation: seeded histories + enumerated cancellation points (drop / mem::forget) with an object-ledger oracle"),
  "C03": ("fault_enumeration", "4 C03",
    "Resource exhaustion as the injected fault: seeded histories are steered into the full state along many paths and every safe insertion entry point (16 of them, bulk ones also with useless and incorrect size hints) is driven against it, in the release and the dev (debug-assertion) build of the same simulator, thorough also under AddressSanitizer and Miri; the oracle is did-it-panic, identity snapshot before/after, the ledger for the rejected key/value, canaries around the container, checked_insert's answer, replace-on-full.",
@@ -59,7 +59,7 @@ for pid, (cat, ref, text, tech) in claimed.items():
         "replay_cmd_template": "./check replay {path}",
         "engine": "microsim",
         "level_claimed": {"category": cat, "text": text, "design_ref": f"DESIGN.md section {ref}"},
-        "level_note": "Sampling, not proof: capacities <= 32 (256 for one C06 configuration), histories <= 24 operations, nine element shapes, one PRNG stream per VERIF_SEED. Trusted base: the simulator's own bookkeeping (ledger, snapshots through iter(), mirror rendering), rustc/std, and for native runs the 0xA5 poison hook as the detector of never-initialised slots; real UB detection only in the Miri/ASan batches of the thorough tier.",
+        "level_note": "Sampling, not proof: capacities <= 32 (256 for one C06 configuration), histories <= 24 operations, ten element shapes, one PRNG stream per VERIF_SEED. Trusted base: the simulator's own bookkeeping (ledger, snapshots through iter(), mirror rendering), rustc/std, and for native runs the 0xA5 poison hook as the detector of never-initialised slots; real UB detection only in the Miri/ASan batches of the thorough tier.",
         "technique": tech,
     })
 
